@@ -43,7 +43,14 @@ pub fn unpack_date(cpm_date: [u8;4]) -> chrono::NaiveDateTime {
     let now = ref_date + Duration::days(u16::from_le_bytes([cpm_date[0],cpm_date[1]]) as i64 - 1);
     let hours = (cpm_date[2] & 0x0f) + 10*(cpm_date[2] >> 4);
     let minutes = (cpm_date[3] & 0x0f) + 10*(cpm_date[3] >> 4);
-    return now.and_hms_opt(hours.into(), minutes.into(), 0).unwrap();
+    return match now.and_hms_opt(hours.into(), minutes.into(), 0) {
+        Some(t) => t,
+        None => {
+            // corrupted time stamp, keep the date
+            log::warn!("invalid time of day {}:{}",hours,minutes);
+            now.and_hms_opt(0, 0, 0).unwrap()
+        }
+    };
 }
 
 /// Take string such as `2:USER2.TXT` and return (2,"USER2.TXT")
